@@ -28,6 +28,7 @@ use std::fmt::Write as _;
 use syn::*;
 
 mod inline;
+mod rename;
 mod limb;
 mod ops;
 
@@ -1555,6 +1556,7 @@ fn main() {
     let mut report: BTreeMap<String, String> = BTreeMap::new();
     let mut emitted: Vec<(String, String, Vec<String>, bool)> = vec![]; // (ns, fn, param names, per-arm?)
     let known = inline::load_known();
+    let locals = rename::Locals::load();
     for t in TARGETS {
         let path = format!("{}/{}", src, t.file);
         let text = match std::fs::read_to_string(&path) { Ok(s) => s.replace("\r\n", "\n"), Err(e) => { report.insert(format!("{}::<file>", t.file), format!("unreadable: {}", e)); continue; } };
@@ -1570,6 +1572,8 @@ fn main() {
                 let m = ImplItemFn { attrs: vec![], vis: f.vis.clone(), defaultness: None, sig: f.sig.clone(), block: (*f.block).clone() };
                 let key = format!("{}.{}", t.lean_ns, name);
                 if excluded.contains(&key) { report.insert(key, "skipped: the generated definition does not elaborate in Lean (ill-typed translation)".into()); continue; }
+                let mut m = m;
+                if let Some(note) = locals.normalise(&key, &mut m) { report.insert(format!("renamed-locals:{}", key), note); }
                 match translate_fn(t, &m, "", None) {
                     Ok((text, params, arms)) => { found.insert(name.clone()); defs.push_str(&text); defs.push('\n'); report.insert(key, "translated".into()); emitted.push((t.lean_ns.to_string(), name, params, arms)); }
                     Err(e) => { report.insert(key, format!("skipped: {}", e)); }
@@ -1595,6 +1599,9 @@ fn main() {
                 if found.contains(&name) { continue; }
                 let key = format!("{}.{}", t.lean_ns, name);
                 if excluded.contains(&key) { report.insert(key, "skipped: the generated definition does not elaborate in Lean (ill-typed translation)".into()); continue; }
+                let mut m2 = m.clone();
+                if let Some(note) = locals.normalise(&key, &mut m2) { report.insert(format!("renamed-locals:{}", key), note); }
+                let m = &m2;
                 match translate_fn(t, m, &impl_assoc_err(im), impl_assoc_out(im).as_ref()) {
                     Ok((text, params, arms)) => { found.insert(name.clone()); defs.push_str(&text); defs.push('\n'); report.insert(key, "translated".into()); emitted.push((t.lean_ns.to_string(), name, params, arms)); }
                     Err(e) => { report.insert(key, format!("skipped: {}", e)); }
@@ -1612,7 +1619,8 @@ fn main() {
                 let key = format!("{}.{}", t.lean_ns, name);
                 if !t.fns.contains(&name.as_str()) || found.contains(&name) || report.contains_key(&key) { continue; }
                 if excluded.contains(&key) { report.insert(key, "skipped: the generated definition does not elaborate in Lean (ill-typed translation)".into()); continue; }
-                let m = ImplItemFn { attrs: vec![], vis: Visibility::Inherited, defaultness: None, sig: tf.sig.clone(), block: body.clone() };
+                let mut m = ImplItemFn { attrs: vec![], vis: Visibility::Inherited, defaultness: None, sig: tf.sig.clone(), block: body.clone() };
+                if let Some(note) = locals.normalise(&key, &mut m) { report.insert(format!("renamed-locals:{}", key), note); }
                 match translate_fn(t, &m, "", None) {
                     Ok((text, params, arms)) => { found.insert(name.clone()); defs.push_str(&text); defs.push('\n'); report.insert(key, "translated".into()); emitted.push((t.lean_ns.to_string(), name, params, arms)); }
                     Err(e) => { report.insert(key, format!("skipped: {}", e)); }
@@ -1632,7 +1640,8 @@ fn main() {
     write_if_changed(&format!("{}/rs2lean_report.json", out_dir), &rep);
     let ok = report.values().filter(|v| *v == "translated").count();
     println!("{{\"translated\": {}, \"skipped\": {}}}", ok, report.len() - ok);
-    let (lt, ls) = limb::run(src, out_dir);
+    let (lt, ls) = limb::run(src, out_dir, &locals);
+    locals.finish();
     println!("{{\"limb_translated\": {}, \"limb_skipped\": {}}}", lt, ls);
     let _ = emitted;
 }
